@@ -1795,6 +1795,8 @@ class Engine:
             r = h(self, sep, parts)
             if r is not NotImplemented:
                 return r
+        if parts is None or is_int(parts) or isinstance(parts, Fl):
+            raise PyRaise("TypeError", ("can only join an iterable",))
         if isinstance(parts, GenVal):
             parts = self.gen_to_list(parts)
         if isinstance(parts, (tuple, list)):
